@@ -25,12 +25,31 @@ package fp
 //@ ensures fresh(result) && len(result) == len(a)
 //@ ensures forall k int :: 0 <= k && k < len(a) ==> result[k] == fp_inv(a[k])
 
-// SqrtPrecomp: specification used by the decoders (C06); its own proof obligations belong to C17.
-//@ func SqrtPrecomp
-//@ assumed specification of the table-driven square root; decided under C17 (exponent abstraction), here used as a contract
+// ---- table-driven square root (C17). The wrapper SqrtPrecomp is proved from the contracts of its two stages; the
+// stages themselves (addition-chain exponentiation x -> (x^((Q+1)/2), x^Q) and the 8-bit-block discrete logarithm over the
+// precomputed tables and the dlog map) are assumed here and covered by the bounded stand-in of the thorough tier.
+
+//@ func sqrtAlg_ComputeRelevantPowers
+//@ assumed exponentiation stage of the square root: candidate = z^((Q+1)/2), root = z^Q with p-1 = Q*2^32, hence candidate^2 = z*root, root is a 2^32-th root of unity, and z is a square iff root is a square in that subgroup (Euler criterion); not discharged by this framework (fixed addition chain over F_p)
 //@ prelude field curve
-//@ ensures result == nil <==> !fp_issquare(*x)
-//@ ensures result != nil ==> fresh(result) && (*result) * (*result) == *x
+//@ requires z != squareRootCandidate && z != rootOfUnity && squareRootCandidate != rootOfUnity && *z != fp_zero
+//@ ensures (*squareRootCandidate) * (*squareRootCandidate) == old(*z) * (*rootOfUnity)
+//@ ensures dyadic(*rootOfUnity) && (dyadic_sq(*rootOfUnity) <==> fp_issquare(old(*z)))
+//@ modifies *squareRootCandidate, *rootOfUnity
+
+//@ func invSqrtEqDyadic
+//@ assumed discrete-logarithm stage of the square root: for a 2^32-th root of unity z it reports whether z is a square in that subgroup and, if so, replaces z by an inverse square root; not discharged by this framework (map-based dlog table, limb-level table keys)
+//@ prelude field curve
+//@ requires dyadic(*z)
+//@ ensures result == dyadic_sq(old(*z))
+//@ ensures result ==> (*z) * (*z) * old(*z) == fp_one
+//@ modifies *z
+
+//@ func SqrtPrecomp
+//@ props C17 C06
+//@ prelude field curve fieldlemmas
+//@ ensures @C17 result == nil <==> !fp_issquare(*x)
+//@ ensures @C17 result != nil ==> fresh(result) && (*result) * (*result) == *x
 
 //@ func BytesLE
 //@ props C11
